@@ -2,12 +2,59 @@ import BsVerif.Lemmas.DqeSlice
 /-! Round trip of the canonical printer through the grammar mirror, on the operator skeleton. -/
 namespace BsVerif.Dqe
 
+/-- `a[i]` with an integer literal: the literal grammar reads the number, then `]` -/
+theorem parseLit_nat_close (f n : Nat) (hn : n < 2 ^ 63) (more : Str) :
+    parseLit (f + 1) (natText n ++ ']' :: more) = .ok (.int n) (']' :: more) := by
+  obtain ⟨c, cs, hc, hd, hz⟩ := natText_head n
+  have hws : isWs c = false := identCont_notWs c (by simp [isIdentCont, hd])
+  have hstop : stopsDigits (']' :: more) = true := by simp [stopsDigits]; decide
+  have hscan := scanInt_natText n (']' :: more) hstop
+  have hdec := parseDec_natText n (by omega)
+  have hsk : skipWs (natText n ++ ']' :: more) = natText n ++ ']' :: more := by
+    rw [hc]; exact skipWs_cons c _ hws
+  have hminus : c ≠ '-' := ne_of_class isDigit c '-' hd (by decide)
+  have ht : c ≠ 't' := ne_of_class isDigit c 't' hd (by decide)
+  have hf : c ≠ 'f' := ne_of_class isDigit c 'f' hd (by decide)
+  have hneg : ((natText n ++ ']' :: more).head? == some '-') = false := by rw [hc]; simp [hminus]
+  have hfloat : floatTok (natText n ++ ']' :: more) = none := by
+    simp only [floatTok, hneg, Bool.false_eq_true, ↓reduceIte, hscan]
+    rfl
+  have htrue : symS ['t', 'r', 'u', 'e'] (natText n ++ ']' :: more) = none := by
+    rw [symS, hsk, hc]; simp [stripPrefix, Ne.symm ht]
+  have hfalse : symS ['f', 'a', 'l', 's', 'e'] (natText n ++ ']' :: more) = none := by
+    rw [symS, hsk, hc]; simp [stripPrefix, Ne.symm hf]
+  have hhex : hexTok (natText n ++ ']' :: more) = .fail := by
+    rw [hexTok, hsk, hc]
+    by_cases h0 : c = '0'
+    · subst h0; rw [hz rfl]; simp [stripPrefix]
+    · simp [stripPrefix, Ne.symm h0]
+  have hint : intTok (natText n ++ ']' :: more) = .ok (n : Int) (']' :: more) := by
+    have h63 : n < 2 ^ 63 := hn
+    simp only [intTok, hneg, Bool.false_eq_true, ↓reduceIte, hscan, hdec, h63]
+  simp [parseLit, hfloat, htrue, hfalse, hhex, hint]
+
+theorem parsePost_index_nat (n : Nat) (hn : n < 2 ^ 63) (rest : Str) (hrest : followPost rest = true) :
+    parsePost ('[' :: natText n ++ ']' :: rest) = .ok (.index (.int n)) rest := by
+  obtain ⟨c, cs, hc, hd, _⟩ := natText_head n
+  have hws : isWs c = false := identCont_notWs c (by simp [isIdentCont, hd])
+  have hsk : skipWs (natText n ++ ']' :: rest) = natText n ++ ']' :: rest := by rw [hc]; exact skipWs_cons c _ hws
+  have hfu : ∀ s : Str, litFuel s = (7 + 4 * s.length) + 1 := by intro s; simp [litFuel]; omega
+  have hlit := parseLit_nat_close (7 + 4 * (natText n ++ ']' :: rest).length) n hn rest
+  have hrestnw := (followPost_facts rest hrest).1
+  simp only [List.cons_append] at *
+  rw [parsePost]
+  simp only [sym_miss '.' '[' _ (by decide) (by decide), sym_hit '[' _ (by decide : isWs '[' = false), hsk, hfu, hlit,
+    skipWs_cons ']' _ (by decide : isWs ']' = false), sym_hit ']' _ (by decide : isWs ']' = false), skipWs_id _ hrestnw]
+
+
 /-! ### postfix chain of fields over a variable -/
 
-/-- postfix operators of the fragment: fields named by identifiers, slices with bounds below 2^64 -/
+/-- postfix operators of the fragment: fields named by identifiers, slices with bounds below 2^64, indexes by a
+non-negative integer literal -/
 def okPost : Post → Bool
   | .field f => isIdentB f
   | .slice l r => decide (l.getD 0 < 2 ^ 64) && decide (r.getD 0 < 2 ^ 64)
+  | .index (.int i) => decide (0 ≤ i) && decide (i < 2 ^ 63)
   | .index _ => false
 
 def postText : Post → Str
@@ -63,7 +110,16 @@ theorem parsePost_ok (p : Post) (hp : okPost p = true) (rest : Str) (hr : follow
     simp only [okPost, Bool.and_eq_true, decide_eq_true_eq] at hp
     have := parsePost_slice l r hp.1 hp.2 rest hr
     simpa [postText] using this
-  | index l => simp [okPost] at hp
+  | index l =>
+    cases l with
+    | int i =>
+      simp only [okPost, Bool.and_eq_true, decide_eq_true_eq] at hp
+      have hnat : (i.toNat : Int) = i := Int.toNat_of_nonneg hp.1
+      have := parsePost_index_nat i.toNat (by omega) rest hr
+      have hneg : ¬ (i < 0) := by omega
+      simp only [postText, printLit, if_neg hneg, List.cons_append, List.append_assoc, List.singleton_append, List.nil_append] at this ⊢
+      rw [this, hnat]
+    | _ => simp [okPost] at hp
 
 theorem parsePosts_fields (fs : List Post) (a : Dqe) (rest : Str) (k : Nat)
     (hfs : fs.all okPost = true) (hr : followExpr rest = true) (hk : fs.length ≤ k) :
@@ -238,13 +294,24 @@ theorem tidy_postText (p : Post) (hp : okPost p = true) (t : Str) (ht : tidy t =
     have h4 := tidy_bound_append l _ h3
     simp only [postText, List.cons_append, List.append_assoc, List.singleton_append, tidy, Bool.and_eq_true]
     exact ⟨⟨by decide, by simp⟩, h4⟩
-  | index l => simp [okPost] at hp
+  | index l =>
+    cases l with
+    | int i =>
+      simp only [okPost, Bool.and_eq_true, decide_eq_true_eq] at hp
+      have hneg : ¬ (i < 0) := by omega
+      have h1 : tidy (']' :: t) = true := by
+        simp only [tidy, Bool.and_eq_true]; exact ⟨⟨by decide, by simp⟩, ht⟩
+      have h2 := tidy_digits_append i.toNat _ h1
+      simp only [postText, printLit, if_neg hneg, List.cons_append, List.append_assoc, List.singleton_append, tidy, Bool.and_eq_true]
+      exact ⟨⟨by decide, by simp⟩, h2⟩
+    | _ => simp [okPost] at hp
 
 /-- expressions of the fragment: identifiers as variables and fields, prefix operators anywhere -/
 def frag : Dqe → Bool
   | .var n => isIdentB n
   | .field e f => frag e && isIdentB f
   | .slice e l r => frag e && okPost (.slice l r)
+  | .index e l => frag e && okPost (.index l)
   | .deref e | .address e | .canonic e => frag e
   | _ => false
 
@@ -262,6 +329,14 @@ theorem tidy_print (e : Dqe) (he : frag e = true) (t : Str) (ht : tidy t = true)
       exact ⟨⟨by decide, by simp⟩, this⟩
     have := (ih he.1 ('.' :: f ++ t) h1 (by simp [followPost])).1
     simp only [printPost, printPre, List.append_assoc]
+    exact ⟨this, this⟩
+  | index e l ih =>
+    simp only [frag, Bool.and_eq_true] at he
+    have h1 := tidy_postText (.index l) he.2 t ht hf
+    have hfo : followPost (postText (.index l) ++ t) = true := by simp [postText, followPost]
+    have := (ih he.1 _ h1 hfo).1
+    simp only [postText, List.cons_append, List.append_assoc, List.singleton_append] at this
+    simp only [printPost, printPre, List.cons_append, List.append_assoc, List.singleton_append]
     exact ⟨this, this⟩
   | slice e l r ih =>
     simp only [frag, Bool.and_eq_true] at he
@@ -349,6 +424,7 @@ theorem rustIdent_paren (u : Str) : rustIdent ('(' :: u) = none := by
 def size : Dqe → Nat
   | .field e _ => size e + 1
   | .slice e _ _ => size e + 1
+  | .index e _ => size e + 1
   | .deref e | .address e | .canonic e => size e + 1
   | _ => 1
 
@@ -422,6 +498,16 @@ theorem roundtrip (e : Dqe) (he : frag e = true) : RT e := by
     refine ⟨hA, fun rest f hr ht hf => ?_⟩
     have := hA [] rest f rfl hr ht hf
     simpa [printPost, printPre, fieldsText, chain] using this
+  | index e l ih =>
+    simp only [frag, Bool.and_eq_true] at he
+    have hA : ∀ (fs : List Post) (rest : Str) (f : Nat), fs.all okPost = true → followExpr rest = true → tidy rest = true →
+        size (Dqe.index e l) ≤ f → parseExpr (f + 1) (printPost (.index e l) ++ fieldsText fs ++ rest) = .ok (chain (.index e l) fs) rest := by
+      intro fs rest f hfs hr ht hf
+      have := (ih he.1).1 (.index l :: fs) rest f (by simp [he.2, hfs]) hr ht (by simp [size] at hf; omega)
+      simpa [printPost, fieldsText, postText, chain, Post.apply] using this
+    refine ⟨hA, fun rest f hr ht hf => ?_⟩
+    have := hA [] rest f rfl hr ht hf
+    simpa [printPost, printPre, fieldsText, chain] using this
   | slice e l r ih =>
     simp only [frag, Bool.and_eq_true] at he
     have hA : ∀ (fs : List Post) (rest : Str) (f : Nat), fs.all okPost = true → followExpr rest = true → tidy rest = true →
@@ -447,6 +533,10 @@ theorem size_le_print (e : Dqe) (he : frag e = true) : size e ≤ (printPre e).l
     have := ih he.1
     simp [size, printPre, printPost]; omega
   | slice e l r ih =>
+    simp only [frag, Bool.and_eq_true] at he
+    have := ih he.1
+    simp [size, printPre, printPost]; omega
+  | index e l ih =>
     simp only [frag, Bool.and_eq_true] at he
     have := ih he.1
     simp [size, printPre, printPost]; omega
